@@ -74,7 +74,9 @@ impl ChessMove {
                 Square::make_square(rank, dest_file),
                 None,
             );
-            if MoveGen::new_legal(&board).any(|l| l == m) {
+            if board.piece_on(m.get_source()) == Some(Piece::King)
+                && MoveGen::new_legal(&board).any(|l| l == m)
+            {
                 return Ok(m);
             } else {
                 return Err(Error::InvalidSanMove);
